@@ -325,12 +325,14 @@ Definition item_raw_ok (it : item) : bool :=
   | IStr s => nosent s
   | IDict kvs => forallb (fun kv => nosent (fst kv) && nosent (snd kv)) kvs
   | IOpaque s r j => nosent s && nosent r && nosent j
+  | IDictO kvs s r j => forallb (fun kv => nosent (fst kv) && nosent (snd kv)) kvs && nosent s && nosent r && nosent j
   | _ => true
   end.
 Definition value_raw_ok (v : value) : bool :=
   match v with
   | VStr s | VOpaque s _ => nosent s
   | VList l | VTuple l => forallb item_raw_ok l
+  | VObj s r j _ _ => nosent s && nosent r && match j with Some t => nosent t | None => true end
   | _ => true
   end.
 Definition ctx_raw_ok (c : ctx) : bool := forallb (fun kv => value_raw_ok (snd kv)) c.
@@ -355,14 +357,21 @@ Record instance := mkInstance {
   i_strict : bool;
   i_calls : Z }.
 
+(* The three render operations are the three ENTRY POINTS that take the bindings as KEYWORD ARGUMENTS
+   - Python's **context -; a fourth is internal: {{>n}} calls translate(n, **context) again.  The first parameter of
+   translate() and of synthesize() is positional-only (e868ad8), so NO keyword can meet a parameter of the
+   def: whatever identifier a binding is called - strict, template, sequence, self, context, name, silent,
+   filters ... - it lands in **context under its own name.  In the model the context of an operation IS the
+   list of keyword arguments of the call. *)
 Inductive op :=
 | OpRegister (n : str) (t : template)   (* create_template(seq, n) / register_template(mRNA(seq, any name)[, name=n]) *)
-| OpRender (t : template) (c : ctx)     (* synthesize(seq, **c) / translate(mRNA(seq, any name) not registered, **c) *)
+| OpRender (t : template) (c : ctx)     (* translate(mRNA(seq, any name) not registered, **c) *)
 | OpTranslate (n : str) (c : ctx)       (* translate(n, **c) by registered name *)
 | OpSetFilter (n : str) (cf : cfilter)  (* self.filters[n] = f *)
-| OpRenderDecl (t : template) (cs : list codon) (c : ctx).
+| OpRenderDecl (t : template) (cs : list codon) (c : ctx)
                                         (* translate(mRNA(seq, codons=cs) not registered, **c): hand-written codons
                                            ([] = the auto-detected ones, i.e. OpRender) *)
+| OpSynth (t : template) (c : ctx).     (* synthesize(seq, **c) = translate(mRNA(seq, name="_direct_"), **c) *)
 
 (* self.templates[n] = t : an existing key keeps its position *)
 Fixpoint reg_set (T : list (str * template)) (n : str) (t : template) : list (str * template) :=
@@ -379,7 +388,9 @@ Inductive result :=
 | RRegistered
 | RFilterSet
 | RUnknown (n : str)                                          (* ValueError("Unknown template: n") *)
-| RRender (t : template) (c : ctx) (o : outcome) (ot : toutcome * list failure).
+| RRender (t : template) (c : ctx) (o : outcome) (ot : toutcome * list failure)
+| RBindRefused (x : str).     (* TypeError("... got multiple values for argument 'x'"): the call never reached the
+                                 renderer.  Only [result_on_legacy] (the API before e868ad8) answers it. *)
 
 (* what an operation answers on filter table F and registry T, and the state afterwards: pure functions *)
 Definition result_on {F : FTable} (strict : bool) (T : list (str * template)) (o : op) : result :=
@@ -389,7 +400,7 @@ Definition result_on {F : FTable} (strict : bool) (T : list (str * template)) (o
   match o with
   | OpRegister _ _ => RRegistered
   | OpSetFilter _ _ => RFilterSet
-  | OpRender t c => render t c
+  | OpRender t c | OpSynth t c => render t c
   | OpRenderDecl t cs c =>
       RRender t c (render_impl_decl strict (print_templates T) c (print t) cs)
                   (render_taint_decl strict (print_templates T) c (print t) cs)
@@ -399,6 +410,43 @@ Definition registry_after (T : list (str * template)) (o : op) : list (str * tem
   match o with OpRegister n t => reg_set T n t | _ => T end.
 Definition filters_after (F : ftable) (o : op) : ftable :=
   match o with OpSetFilter n cf => ft_set F n cf | _ => F end.
+
+(* ------------------------------------------------------------------ *)
+(* the API before e868ad8, kept for the ..._legacy_refuted lemma of Examples.v:
+   def translate(self, template, **context) / def synthesize(self, sequence, **context) took their first
+   parameters positional-OR-keyword, so a keyword argument of that name could not go to **context: Python
+   raises TypeError("got multiple values for argument") for the FIRST keyword of the call that names a
+   parameter already filled positionally - in synthesize first against its own (self, sequence), then, when it
+   forwards **context, against translate's (self, template).  A binding called template, sequence or self
+   was refused before anything was rendered. *)
+(* K_SELF, K_TEMPLATE, K_SEQUENCE: Impl.v *)
+Definition kw_clash (params : list str) (c : ctx) : option str :=
+  match filter (fun kv : str * value => existsb (str_eqb (fst kv)) params) c with
+  | [] => None
+  | kv :: _ => Some (fst kv)
+  end.
+Fixpoint first_clash (defs : list (list str)) (c : ctx) : option str :=
+  match defs with
+  | [] => None
+  | ps :: rest => match kw_clash ps c with Some x => Some x | None => first_clash rest c end
+  end.
+(* the defs the keywords of the call meet, outermost first *)
+Definition legacy_defs (o : op) : list (list str) :=
+  match o with
+  | OpSynth _ _ => [[K_SELF; K_SEQUENCE]; [K_SELF; K_TEMPLATE]]
+  | OpRender _ _ | OpRenderDecl _ _ _ | OpTranslate _ _ => [[K_SELF; K_TEMPLATE]]
+  | _ => []
+  end.
+Definition op_ctx (o : op) : ctx :=
+  match o with
+  | OpRender _ c | OpSynth _ c | OpTranslate _ c | OpRenderDecl _ _ c => c
+  | _ => []
+  end.
+Definition result_on_legacy {F : FTable} (strict : bool) (T : list (str * template)) (o : op) : result :=
+  match first_clash (legacy_defs o) (op_ctx o) with
+  | Some x => RBindRefused x
+  | None => result_on strict T o
+  end.
 
 Definition step (i : instance) (o : op) : instance * result :=
   (mkInstance (filters_after (i_filters i) o) (registry_after (i_templates i) o) (i_strict i) (i_calls i + 1),
@@ -463,7 +511,7 @@ Definition spec_row {F : FTable} (T : list (str * template)) (strict : bool) (ma
 (* rows per render: error; text; warnings; opacity failures (origin*16+pass, sorted);
                     reference rendering when applicable; plain model = erased taint model.
    a registration: one row [7]; a filter stored: one row [8]; translate of an unregistered name:
-   [5; name] and five empty rows.  The reference rendering is computed with the filter table the
+   [5; name] and five empty rows; a call that refuses a keyword binding (never answered by [step]): [6; name].  The reference rendering is computed with the filter table the
    operation met on ITS OWN instance. *)
 Definition result_rows (sr : srow) : list (list Z) :=
   let '(_, strict, (F, T, r)) := sr in
@@ -471,6 +519,7 @@ Definition result_rows (sr : srow) : list (list Z) :=
   | RRegistered => [[7]]
   | RFilterSet => [[8]]
   | RUnknown n => [5 :: n; []; []; []; [0]; [1]]
+  | RBindRefused x => [6 :: x; []; []; []; [0]; [1]]
   | RRender t c o ot =>
       let plain := obs_plain o in
       plain ++ [pairs_row (snd ot); @spec_row F T strict t c; [b2z (zll_eqb plain (obs_taint (fst ot)))]]
